@@ -119,7 +119,7 @@ fn analyse(dict: &JapaneseDictionary, tok: &mut StatefulTokenizer<&JapaneseDicti
 }
 
 pub fn run(args: &Args) {
-    let mut sink = Sink::new("C03", &args.out, &["Model.Lattice", "Model.BuildCheck"], args.seed, &args.tier);
+    let mut sink = Sink::new("C03", &args.out, &["Model.Lattice", "Model.BuildCheck", "Model.LatticeP"], args.seed, &args.tier);
     sink.shard_size = 40;
     sink.rule("configurations {test config, full plugin stack with MeCab+regex+simple OOV, regexes matching the empty string, cost extremes} x modes A/B/C x {fixed hostile strings: NUL, controls, unassigned, astral, combining runs > 64, ZWJ chains, NFKC 18x expanders; lengths around 49,149 / 65,535 bytes; random mixes}; every accessor of every morpheme is called; plus build_lattice model vs lattice dump; non-trivial = non-empty text; distinct by (config, mode, text)");
     let res = format!("{}/sudachi/tests/resources", repo());
@@ -156,7 +156,7 @@ pub fn run(args: &Args) {
         }
         let mut users = vec![user.clone()];
         users.extend(extra_users.iter().cloned());
-        let dict = match load_dictionary(&dir, system.clone(), users, &cfg) {
+        let dict = match load_dictionary_caught(&dir, system.clone(), users, &cfg) {
             Ok(d) => d,
             Err(e) => {
                 let id = sink.case_rust_only(json!({"kind": "c03-load", "config": cname}), false);
@@ -257,6 +257,9 @@ pub fn run(args: &Args) {
     if replay_case.is_none() {
         generated_configurations(&mut sink, &mut rng, args);
     }
+    if replay_case.is_none() || replay_case.as_ref().map(|c| c["kind"] == "lattice-panic").unwrap_or(false) {
+        lattice_panic_sessions(&mut sink, &mut rng, args, replay_case.as_ref());
+    }
     debug_mode_runs(&mut sink, args);
     sink.finish();
 }
@@ -299,7 +302,7 @@ fn reuse_sessions(sink: &mut Sink, rng: &mut Rng, args: &Args, dir: &std::path::
         }
         let mut users = vec![user.to_vec()];
         users.extend(extra.iter().cloned());
-        let dict = match load_dictionary(dir, system.to_vec(), users, &cfg) {
+        let dict = match load_dictionary_caught(dir, system.to_vec(), users, &cfg) {
             Ok(d) => d,
             Err(_) => continue, // reported by the main loop
         };
@@ -536,4 +539,240 @@ fn lattice_term(dict: &JapaneseDictionary, tok: &mut StatefulTokenizer<&Japanese
         clist(nodes.iter().map(|x| format!("mkNode {}%nat {}%nat {} {} {}", x.begin, x.end, cn(x.left_id), cn(x.right_id), cz(x.cost as i64)))),
         copt(eos.map(|e| cz(e as i64)))
     ))
+}
+
+
+/// putting a dictionary together analyses the user dictionary entries (cost estimation): a panic there is a finding
+/// like any other, not a reason for the harness to die
+fn load_dictionary_caught(dir: &std::path::Path, system: Vec<u8>, users: Vec<Vec<u8>>, cfg: &Value) -> Result<JapaneseDictionary, String> {
+    match catch(|| load_dictionary(dir, system, users, cfg)) {
+        Ok(r) => r,
+        Err(p) => Err(format!("panicked while loading: {}", p)),
+    }
+}
+
+// ------------------------------------------------------------------ panicking-index model of lattice.rs (Model/LatticeP.v)
+// One Lattice object through several rounds of reset / insert* / connect_eos / fill_top_path / node(id), with well-formed
+// and deliberately ill-formed nodes (end beyond the lattice, begin >= end, ids outside the matrix, empty text): the model
+// must say "no panic" exactly when the implementation does not panic, with the same costs / EOS / path / totals, and
+// name a panic site of the observed kind otherwise.
+mod lattice_panics {
+    use crate::common::*;
+    use serde_json::{json, Value};
+    use sudachi::analysis::lattice::Lattice;
+    use sudachi::analysis::Node;
+    use sudachi::dic::connect::ConnectionMatrix;
+    use sudachi::dic::word_id::WordId;
+
+    #[derive(Clone, Debug)]
+    pub struct PN {
+        pub b: usize,
+        pub e: usize,
+        pub l: u16,
+        pub r: u16,
+        pub c: i16,
+    }
+    pub struct Session {
+        pub nl: usize,
+        pub nr: usize,
+        pub data: Vec<i16>,
+        pub rounds: Vec<(usize, Vec<PN>)>,
+    }
+    /// per round: None = panicked; Some(costs, eos)
+    pub type RoundOut = Option<(Vec<i32>, Option<(i32, Vec<(u16, u16)>, Vec<i32>)>)>;
+
+    pub fn run(s: &Session) -> (Vec<RoundOut>, String) {
+        let bytes: Vec<u8> = s.data.iter().flat_map(|x| x.to_le_bytes()).collect();
+        let mut lat = Lattice::default();
+        let mut out = vec![];
+        let mut msg = String::new();
+        for (len, nodes) in &s.rounds {
+            let r = catch(|| {
+                let conn = ConnectionMatrix::from_offset_size(&bytes, 0, s.nl, s.nr).unwrap();
+                lat.reset(*len);
+                let mut costs = vec![];
+                for (k, n) in nodes.iter().enumerate() {
+                    let node = Node::new(n.b as u16, n.e as u16, n.l, n.r, n.c, WordId::new(0, k as u32));
+                    costs.push(lat.insert(node, &conn));
+                }
+                let eos = match lat.connect_eos(&conn) {
+                    Err(_) => None,
+                    Ok(()) => {
+                        let (_, _, ec) = lat.verif_eos().unwrap();
+                        let mut ids = vec![];
+                        lat.fill_top_path(&mut ids);
+                        ids.reverse();
+                        let mut path = vec![];
+                        let mut totals = vec![];
+                        for id in ids {
+                            let (_, t) = lat.node(id);
+                            path.push((id.end(), id.index()));
+                            totals.push(t);
+                        }
+                        Some((ec, path, totals))
+                    }
+                };
+                (costs, eos)
+            });
+            match r {
+                Ok(x) => out.push(Some(x)),
+                Err(p) => {
+                    out.push(None);
+                    msg = p;
+                    break;
+                }
+            }
+        }
+        (out, msg)
+    }
+
+    pub fn panic_class(msg: &str) -> u32 {
+        if msg.contains("index out of bounds") {
+            1
+        } else if msg.contains("with overflow") {
+            2
+        } else if msg.contains("assertion") {
+            3
+        } else {
+            0
+        }
+    }
+
+    fn cost_val(rng: &mut Rng) -> i16 {
+        match rng.below(12) {
+            0 => 32767,
+            1 => -32768,
+            2 => 0,
+            _ => rng.range(-3000, 3000) as i16,
+        }
+    }
+
+    pub fn gen(rng: &mut Rng, debug: bool) -> Session {
+        let nl = 1 + rng.below(4) as usize;
+        let nr = 1 + rng.below(4) as usize;
+        let data: Vec<i16> = (0..nl * nr).map(|_| cost_val(rng)).collect();
+        let nrounds = 1 + rng.below(4) as usize;
+        let ill = rng.chance(1, 2); // half of the sessions stay inside the scope of the theorem
+        let mut rounds = vec![];
+        let mut cap = 0usize;
+        for _ in 0..nrounds {
+            let len = if ill && rng.chance(1, 8) { 0 } else { 1 + rng.below(8) as usize };
+            let mut nodes: Vec<PN> = vec![];
+            if len > 0 {
+                for _ in 0..rng.below(3 * len as u64 + 2) {
+                    let b = rng.below(len as u64) as usize;
+                    let e = b + 1 + rng.below((len - b) as u64) as usize;
+                    nodes.push(PN { b, e, l: rng.below(nr as u64) as u16, r: rng.below(nl as u64) as u16, c: cost_val(rng) });
+                }
+                if rng.chance(3, 4) {
+                    let mut p = 0;
+                    while p < len {
+                        let e = usize::min(len, p + 1 + rng.below(2) as usize);
+                        nodes.push(PN { b: p, e, l: rng.below(nr as u64) as u16, r: rng.below(nl as u64) as u16, c: cost_val(rng) });
+                        p = e;
+                    }
+                }
+            }
+            nodes.sort_by_key(|n| n.b);
+            if ill && rng.chance(2, 3) {
+                // one or two ill-formed nodes somewhere: end in a stale row of an earlier, longer analysis / beyond the outer
+                // vectors, empty or inverted span, begin beyond the lattice, ids outside the matrix (debug assertions only:
+                // without them that is undefined behaviour)
+                for _ in 0..1 + rng.below(2) {
+                    let b = rng.below(len as u64 + 1) as usize;
+                    let bad = match rng.below(if debug { 7 } else { 5 }) {
+                        0 => PN { b, e: len + 1 + rng.below(3) as usize, l: 0, r: 0, c: 1 },
+                        1 => PN { b, e: usize::max(cap, len + 1) + rng.below(2) as usize, l: 0, r: 0, c: 1 },
+                        2 => PN { b, e: b, l: 0, r: 0, c: -5 },
+                        3 => PN { b: len, e: rng.below(len as u64 + 1) as usize, l: 0, r: 0, c: 1 },
+                        4 => PN { b: usize::max(cap, len + 1) + rng.below(3) as usize, e: len, l: 0, r: 0, c: 1 },
+                        5 => PN { b, e: usize::min(len, b + 1), l: nr as u16 + rng.below(2) as u16, r: 0, c: 1 },
+                        _ => PN { b, e: usize::min(len, b + 1), l: 0, r: nl as u16 + rng.below(2) as u16, c: 1 },
+                    };
+                    let pos = rng.below(nodes.len() as u64 + 1) as usize;
+                    nodes.insert(pos, bad);
+                }
+            }
+            cap = usize::max(cap, len + 1);
+            rounds.push((len, nodes));
+        }
+        Session { nl, nr, data, rounds }
+    }
+
+    pub fn desc(s: &Session) -> Value {
+        json!({"kind": "lattice-panic", "num_left": s.nl, "num_right": s.nr, "data": s.data,
+               "rounds": s.rounds.iter().map(|(len, ns)| json!([len, ns.iter().map(|n| json!([n.b, n.e, n.l, n.r, n.c])).collect::<Vec<_>>()])).collect::<Vec<_>>()})
+    }
+
+    pub fn from_desc(v: &Value) -> Session {
+        Session {
+            nl: v["num_left"].as_u64().unwrap() as usize,
+            nr: v["num_right"].as_u64().unwrap() as usize,
+            data: v["data"].as_array().unwrap().iter().map(|x| x.as_i64().unwrap() as i16).collect(),
+            rounds: v["rounds"].as_array().unwrap().iter().map(|r| {
+                (r[0].as_u64().unwrap() as usize,
+                 r[1].as_array().unwrap().iter().map(|n| PN { b: n[0].as_u64().unwrap() as usize, e: n[1].as_u64().unwrap() as usize, l: n[2].as_u64().unwrap() as u16, r: n[3].as_u64().unwrap() as u16, c: n[4].as_i64().unwrap() as i16 }).collect())
+            }).collect(),
+        }
+    }
+
+    pub fn term(s: &Session, out: &[RoundOut], class: u32) -> String {
+        let debug = cfg!(debug_assertions);
+        let rounds = clist(s.rounds.iter().map(|(len, ns)| {
+            format!("({}%nat, {})", len, clist(ns.iter().map(|n| format!("mkNode {}%nat {}%nat {} {} {}", n.b, n.e, cn(n.l), cn(n.r), cz(n.c as i64)))))
+        }));
+        let im = clist(out.iter().map(|o| match o {
+            None => "None".to_string(),
+            Some((costs, eos)) => {
+                let e = match eos {
+                    None => "None".to_string(),
+                    Some((ec, path, totals)) => format!("(Some ({}, {}, {}))", cz(*ec as i64),
+                        clist(path.iter().map(|(a, b)| format!("({}%nat, {}%nat)", a, b))), clist(totals.iter().map(|t| cz(*t as i64)))),
+                };
+                format!("(Some ({}, {}))", clist(costs.iter().map(|t| cz(*t as i64))), e)
+            }
+        }));
+        format!("check_lattice_panics {} {} {} {} {} {} {} {}", cbool(debug), cbool(debug), cnu(s.nl), cnu(s.nr),
+            clist(s.data.iter().map(|x| cz(*x as i64))), rounds, im, cn(class))
+    }
+
+    /// inside the scope of C03_lattice_no_index_panic: text of 1..65535 characters, begin < end <= len, ids inside the matrix
+    pub fn well_formed(s: &Session) -> bool {
+        s.rounds.iter().all(|(len, ns)| *len >= 1 && ns.iter().all(|n| n.b < n.e && n.e <= *len && (n.l as usize) < s.nr && (n.r as usize) < s.nl))
+    }
+}
+
+fn lattice_panic_sessions(sink: &mut Sink, rng: &mut Rng, args: &Args, replay: Option<&Value>) {
+    use lattice_panics::*;
+    let debug = cfg!(debug_assertions);
+    let mut sessions: Vec<Session> = vec![];
+    if let Some(rc) = replay {
+        sessions.push(from_desc(rc));
+    } else {
+        // directed: the empty text through the public API (the tokenizer returns before it gets there), a stale row of a
+        // longer earlier analysis, a node ending at 0
+        let one = |rounds: Vec<(usize, Vec<PN>)>| Session { nl: 1, nr: 1, data: vec![3], rounds };
+        sessions.push(one(vec![(0, vec![])]));
+        sessions.push(one(vec![(5, vec![PN { b: 0, e: 5, l: 0, r: 0, c: 1 }]), (2, vec![PN { b: 0, e: 4, l: 0, r: 0, c: 1 }, PN { b: 0, e: 2, l: 0, r: 0, c: 1 }])]));
+        sessions.push(one(vec![(2, vec![PN { b: 0, e: 0, l: 0, r: 0, c: -7 }, PN { b: 0, e: 2, l: 0, r: 0, c: 1 }])]));
+        sessions.push(one(vec![(2, vec![PN { b: 0, e: 3, l: 0, r: 0, c: 1 }])]));
+        for _ in 0..args.n(400, 6000) {
+            sessions.push(gen(rng, debug));
+        }
+    }
+    for s in &sessions {
+        let (out, msg) = run(s);
+        let panicked = out.last().map_or(false, |o| o.is_none());
+        let class = if panicked { panic_class(&msg) } else { 0 };
+        let wf = well_formed(s);
+        sink.tag(if wf { "lattice_session_well_formed" } else { "lattice_session_ill_formed" });
+        sink.tag(if panicked { "lattice_session_panicked" } else { "lattice_session_no_panic" });
+        if replay.is_some() {
+            println!("session {}\nimplementation: {:?}\npanic message: {:?}", desc(s), out, msg);
+        }
+        let id = sink.case(term(s, &out, class), desc(s), wf && s.rounds.len() > 1);
+        if wf && panicked && class != 2 {
+            sink.fail(id, &format!("the Lattice API panicked ({}) on well-formed nodes: {}", msg, desc(s)), "");
+        }
+    }
 }
